@@ -989,7 +989,6 @@ def forms_workload(ctx):
                                   f'Interferogram constructed with {form} differs from Interferogram(data, dx=python float) in {diff} / {[p[0] for p in probs]}', desc,
                                   differs=diff)
             # ---- operation forms
-            rng = np.random.default_rng([ctx.seed, 12, bi, ci])
             mkind = ['circle', 'random', 'edge'][(bi + ci) % 3]
             pool = {'mask': make_mask(mkind, 1 + bi, shape), 'mask-kind': mkind, 'mask-seed': 1 + bi,
                     'k': [(1, 2), (2, 2), (3, 1), (0, 3), (1, 1)][(bi + ci) % 5], 'finite': 2 if isint else 1.5}
@@ -1007,10 +1006,8 @@ def forms_workload(ctx):
                     if int(np.isfinite(zz.astype(float)).sum()) < 3:
                         continue
                 for pi, pre in enumerate(PRESTATES):
-                    if not ctx.quick or (pi + bi + len(opn)) % 2 == 0 or pre == 'fresh':
-                        pass
-                    else:
-                        continue
+                    if ctx.quick and pre != 'fresh' and (pi + bi + len(opn)) % 2:
+                        continue            # quick tier: the fresh state always, the other states alternately
                     tail = TAILS[(pi + bi + len(opn)) % len(TAILS)]
                     ref = None
                     for form, call in forms:
